@@ -90,7 +90,11 @@ public:
         T const err_all = result.error();
         T const rel_err_all = err_all / fabs(val_all);
 
-        bool const perform_more_iterations = rel_err_all > target_rel_err_;
+        // without a target precision (zero) the integration is never stopped; otherwise it is stopped
+        // as soon as the relative error is not larger than the target. A relative error which is not
+        // a number, e.g. for an integrand that is zero everywhere, never reaches the target
+        bool const perform_more_iterations = !(target_rel_err_ > T()) ||
+            !(rel_err_all <= target_rel_err_);
 
         if ((mode_ == callback_mode::verbose) || (mode_ == callback_mode::verbose_and_write_chkpt))
         {
